@@ -13,7 +13,7 @@ def case(draw, tier):
     big = tier == 'thorough'
     desc = draw(gm.mesh(max_cells=16 if big else 8, max_cells_3d=6 if big else 3, order2=True, curved=True))
     return dict(mesh=desc, layout=draw(st.sampled_from(['shared', 'percell'])),
-                tind=draw(st.sampled_from(['none', 'sorted', 'unsorted', 'repeated', 'int64'])),
+                tind=draw(st.sampled_from(['none', 'sorted', 'unsorted', 'repeated', 'int64', 'permutation', 'permutation'])),
                 picks=draw(st.lists(st.integers(0, 10**4), min_size=1, max_size=8)),
                 iso=draw(st.booleans()), npts=draw(st.integers(1, 5)), seed=draw(st.integers(0, 10**6)))
 
@@ -111,6 +111,10 @@ def body(c, ctx):
     elif tmode == 'repeated':
         cells = np.array(picks, dtype=np.int32)
         tind = cells
+    elif tmode == 'permutation':
+        # all cells, in another order (as many as the mesh has: per-cell point arrays fit both the subset and the whole mesh)
+        cells = np.random.RandomState(c['seed']).permutation(nc).astype(np.int32)
+        tind = cells
     else:
         cells = np.unique(picks).astype(np.int64)
         tind = cells
@@ -128,6 +132,10 @@ def body(c, ctx):
     Xc = (lambda k: X[:, k, :]) if c['layout'] == 'percell' else (lambda k: X)
     scale = 1.0 + np.abs(m.p).max()
     hcell = max(np.ptp(m.p[:, m.t[:, k]], axis=1).max() for k in range(nc))
+    if tind is not None and len(cells) == nc:
+        # the same mapping object has been evaluated at the same point array on the whole mesh before (what a basis does)
+        mapping.F(X, None), mapping.DF(X, None), mapping.detDF(X, None), mapping.invDF(X, None)
+        ctx.cls('primed-with-whole-mesh')
     # ---------------------------------------------------------------- F against the interpolation oracle
     F = np.asarray(mapping.F(X, tind))
     if F.shape != (dim, len(cells), npts):
